@@ -30,6 +30,8 @@ structure HState where
   midCount : Nat := 0                       -- value of the reservation counter when that run took its snapshot
   midK : Option Nat := none                 -- the pending run is parked at its k-th scored item
   parkedResult : Option (Worker × Bool) := none   -- a run that already executed and is parked in front of releasing the lock
+  snapVals : List Nat := []                 -- the item values the implementation's snapshot lists (kept while its match list is unchanged)
+  snapMatches : String := ""
 
 def kindOfNat (n : Nat) : AtomKind :=
   match n with | 0 => .fuzzy | 1 => .substring | 2 => .prefix | 3 => .postfix | _ => .exact
@@ -304,6 +306,16 @@ def hEvent (e : HEnv) (st : HState) (ev : String) : HState := Id.run do
   -- notify accounting (C13): the model predicts every notify call
   if let some x := expectNf then
     if nf ≠ x then issues := issues ++ [s!"DIFF notify calls during {cmd}: model {x} impl {nf}"]
+  -- the values the snapshot lists now (it only changes in tick / restart, whose events carry a dump)
+  if let some sn := snap then
+    match sn.splitOn "/" with
+    | [_, _, ms, _, vals] =>
+      let parsed : List (Option Nat) := if vals = "-" then [] else (vals.splitOn ",").map (·.toNat?)
+      -- an unchanged match list still lists the same items, readable or not
+      let vs : List Nat := if ms = s.snapMatches && parsed.length = s.snapVals.length then (parsed.zip s.snapVals).map (fun (a, b) => a.getD b)
+                           else parsed.filterMap id
+      s := { s with snapVals := vs, snapMatches := ms }
+    | _ => pure ()
   -- C11: which items have been destroyed so far
   if let some dr := fld "dr" then
     let entries := if dr = "-" then [] else dr.splitOn "."
@@ -313,6 +325,7 @@ def hEvent (e : HEnv) (st : HState) (ev : String) : HState := Id.run do
     let curVals := (getStream s s.n.cur).filterMap id
     for v in implDropped do
       if curVals.contains v then issues := issues ++ [s!"ORACLE C11 item {v} of the current stream was dropped while the matcher is alive (after {cmd})"]
+      if s.snapVals.contains v then issues := issues ++ [s!"ORACLE C11 item {v} was dropped although the snapshot still lists it: the snapshot is a handle that reaches its stream (after {cmd})"]
     -- model: a stream's items are destroyed exactly when no handle reaches the stream any more
     let modelDropped := ((List.range s.n.nextStream).filter (fun sid => s.n.strongCount sid = 0)).foldl
       (fun acc sid => acc ++ (getStream s sid).filterMap id) []
